@@ -370,7 +370,13 @@ func parseContractFile(path, pkg string) (*ContractFile, error) {
 					return
 				}
 				k := strings.IndexAny(rest, " \t")
-				cur.Checks = append(cur.Checks, AnchoredAssert{Anchor: rest[1:k], Cl: parseClause(strings.TrimSpace(rest[k:]))})
+				cbody := strings.TrimSpace(rest[k:])
+				var cby []*CExpr
+				if j := strings.LastIndex(cbody, " by "); j >= 0 {
+					cby = parseExprList(strings.TrimSpace(cbody[j+4:]))
+					cbody = strings.TrimSpace(cbody[:j])
+				}
+				cur.Checks = append(cur.Checks, AnchoredAssert{Anchor: rest[1:k], Cl: parseClause(cbody), By: cby})
 			case "witness":
 				// witness name = expr @retN
 				if cur == nil {
